@@ -24,6 +24,8 @@ from py2lean import Source, ExprTr, Untranslatable, HEADER, strip_doc
 TRANSFORMS_PY = "src/irispie/explanatories/_transforms.py"
 EXPLANATORY_PY = "src/irispie/explanatories/main.py"
 PLANS_PY = "src/irispie/plans/transforms.py"
+SIMULATE_PY = "src/irispie/sequentials/_simulate.py"
+SLATABLE_PY = "src/irispie/sequentials/_slatable_protocols.py"
 
 CALLS = {"exp": ("fn", "exp"), "log": ("fn", "log"), "_np.exp": ("fn", "exp"), "_np.log": ("fn", "log")}
 
@@ -340,10 +342,51 @@ def gen_explanatory(repo: str) -> str:
                 + ", ".join(f'("{s}", {"none" if f is None else "some " + chr(34) + f + chr(34)})' for s, f in fmts) + "]")
     body.append("def planTransforms : List String := [" + ", ".join(f'"{_short(c, "PlanTransform")}"' for c in pclasses) + "]\n")
 
+    # ---- data-source options of Sequential.simulate and the Slatable blocks that use them ------------------------
+    sim = Source(repo, SIMULATE_PY)
+    fn = sim.find("simulate")
+    kwdefaults = {a.arg: d for a, d in zip(fn.args.kwonlyargs, fn.args.kw_defaults) if d is not None}
+    for opt, lean_name in (("shocks_from_data", "shocksFromDataDefault"), ("parameters_from_data", "parametersFromDataDefault")):
+        if opt not in kwdefaults or not isinstance(kwdefaults[opt], ast.Constant) or not isinstance(kwdefaults[opt].value, bool):
+            raise Untranslatable(f"Sequential.simulate: no boolean keyword-only default for {opt}")
+        body.append(f"/-- default of `Sequential.simulate(..., {opt}=)` -/")
+        body.append(f"def {lean_name} : Bool := {'true' if kwdefaults[opt].value else 'false'}")
+    sla = Source(repo, SLATABLE_PY)
+    fn = sla.find("Inlay", "slatable_for_simulate")
+    tests = {}
+    for node in ast.walk(fn):
+        if not isinstance(node, ast.If):
+            continue
+        def updates(stmts, attr):
+            out = []
+            for st in stmts:
+                if (isinstance(st, ast.Expr) and isinstance(st.value, ast.Call) and isinstance(st.value.func, ast.Attribute)
+                        and st.value.func.attr == "update" and isinstance(st.value.func.value, ast.Attribute)
+                        and st.value.func.value.attr == attr and len(st.value.args) == 1 and isinstance(st.value.args[0], ast.Name)):
+                    out.append(st.value.args[0].id)
+            return out
+        fb, ow = updates(node.body, "fallbacks"), updates(node.orelse, "overwrites")
+        if len(fb) == 1 and fb == ow:
+            if not isinstance(node.test, ast.Name):
+                raise Untranslatable(f"slatable_for_simulate: the test of the {fb[0]} block is not a plain option name")
+            if fb[0] in tests:
+                raise Untranslatable(f"slatable_for_simulate: two blocks for {fb[0]}")
+            tests[fb[0]] = node.test.id
+    for var, lean_name in (("parameter_name_to_value", "parameterBlockOption"), ("residual_name_to_value", "residualBlockOption")):
+        if var not in tests:
+            raise Untranslatable(f"slatable_for_simulate: no `if <option>: fallbacks.update({var}) else: overwrites.update({var})` block")
+        body.append(f"/-- the option tested by `if <option>: slatable.fallbacks.update({var}) else: slatable.overwrites.update({var})` -/")
+        body.append(f'def {lean_name} : String := "{tests[var]}"')
+    node = sla.find("_DEFAULT_RESIDUAL_VALUE")
+    if not (isinstance(node, ast.Constant) and isinstance(node.value, (int, float)) and not isinstance(node.value, bool)):
+        raise Untranslatable("_DEFAULT_RESIDUAL_VALUE is not a numeric literal")
+    body.append("/-- `_DEFAULT_RESIDUAL_VALUE` is zero -/")
+    body.append(f"def defaultResidualIsZero : Bool := {'true' if node.value == 0 else 'false'}\n")
+
     nums = sorted(n for n in numerals)
     binders = ("{α : Type} [Add α] [Sub α] [Mul α] [Div α] [Neg α] " + " ".join(f"[OfNat α {n}]" for n in nums)
                + " (exp log : α → α)")
-    out = [HEADER.format(src=f"{TRANSFORMS_PY}, {EXPLANATORY_PY}, {PLANS_PY}"),
+    out = [HEADER.format(src=f"{TRANSFORMS_PY}, {EXPLANATORY_PY}, {PLANS_PY}, {SIMULATE_PY}, {SLATABLE_PY}"),
            "set_option linter.unusedVariables false\n",
            "namespace IrisVerif.Gen.Explanatory\n",
            f"/-- numerals that occur in the fragments: {nums} -/",
